@@ -418,6 +418,9 @@ func (db *SingleBucketBackend) PutObject(
 		}
 	}
 
+	_, statErr := db.fs.Stat(objectFilePath)
+	existed := statErr == nil
+
 	f, err := db.fs.Create(objectFilePath)
 	if err != nil {
 		// Do not leave the directories made for this key behind:
@@ -461,6 +464,12 @@ func (db *SingleBucketBackend) PutObject(
 		ModTime: stat.ModTime(),
 	}
 	if err := db.metaStore.saveMeta(db.metaStore.metaPath(bucketName, objectName), storedMeta); err != nil {
+		// The upload is refused. Do not leave a new object file behind that has
+		// no metadata (see MultiBucketBackend.PutObject):
+		if !existed {
+			db.fs.Remove(objectFilePath)
+			db.removeEmptyDirsLocked(path.Dir(path.Clean(objectName)))
+		}
 		return result, err
 	}
 
